@@ -884,7 +884,17 @@ func globalsOf(p *pkgInfo) []globalAcc {
 						if strings.HasPrefix(fun, "atomic.") && len(x.Args) > 0 {
 							if u, ok := x.Args[0].(*ast.UnaryExpr); ok && u.Op == token.AND {
 								if id, ok := u.X.(*ast.Ident); ok && vars[id.Name] {
-									out = append(out, globalAcc{id.Name, fd.Name.Name, "atomic"})
+									// one atomic read-modify-write (Add*, Swap*, CompareAndSwap*, And*, Or*) is "atomic";
+									// a bare load / store is told apart: a load followed by a store of the same
+									// variable is race-free and still not ONE atomic step (C17 counter_minted_in_one_step)
+									kind := "atomic"
+									switch op := strings.TrimPrefix(fun, "atomic."); {
+									case strings.HasPrefix(op, "Load"):
+										kind = "atomic-load"
+									case strings.HasPrefix(op, "Store"):
+										kind = "atomic-store"
+									}
+									out = append(out, globalAcc{id.Name, fd.Name.Name, kind})
 									for _, a := range x.Args[1:] {
 										walk(a, inOnce, seenOnce)
 									}
@@ -1176,6 +1186,37 @@ func genFactsLock(repo, out string) error {
 	}
 	sort.Strings(rc)
 	b.WriteString(strings.Join(rc, ",\n"))
+	b.WriteString("\n]\n\n")
+
+	// (g) the SessionCache method calls of storeClientSession in SOURCE ORDER: the entry is filed
+	// before any command is mapped to it (a mapping without its entry is what a concurrent expiry
+	// sweep deletes)
+	b.WriteString("/-- (g) calls of security.SessionCache methods in storeClientSession, in source order -/\n")
+	b.WriteString("def clientStoreCalls : List String := [\n")
+	var sc []string
+	for _, f := range sec.files {
+		for _, d := range f.Decls {
+			fd, ok := d.(*ast.FuncDecl)
+			if !ok || fd.Body == nil || fd.Name.Name != "storeClientSession" {
+				continue
+			}
+			ast.Inspect(fd.Body, func(n ast.Node) bool {
+				c, ok := n.(*ast.CallExpr)
+				if !ok {
+					return true
+				}
+				if sel, ok := c.Fun.(*ast.SelectorExpr); ok && namedOf(sec, sel.X) == "SessionCache" {
+					sc = append(sc, "  "+leanStr(sel.Sel.Name))
+				}
+				return true
+			})
+		}
+	}
+	if len(sc) == 0 {
+		return emptyTable("facts_lock", "FactsLock.clientStoreCalls", "C17 client_store_files_entry_first",
+			"no SessionCache method call found in security.storeClientSession (function renamed?)")
+	}
+	b.WriteString(strings.Join(sc, ",\n"))
 	b.WriteString("\n]\n\nend CedarGen.FactsLock\n")
 	return os.WriteFile(out, []byte(b.String()), 0o644)
 }
